@@ -976,6 +976,41 @@ def pred_runs(cfg) -> list[tuple[str, str]]:
     return out
 
 
+def pred_band_layout(name: str, x1, x2, bow: float) -> list[tuple[str, str]]:
+    """the public `minimise_interpolation` on a caller's own initial guess (a bowed band), handed over once as a
+    row-major array and once as a column-major one holding the same numbers (`np.array([xs, ys]).T` is such a view):
+    the optimised band is the same, its end images have not moved, every image is in the box"""
+    out = []
+    pot, box = surface(name)
+    neb = new_neb(pot, 10.0, 6.0, 20, conv=1e-3)
+    cap = traced_run(neb, pot, box, x1, x2, 0)             # sets the image count, the band's box and the spring constants
+    band0 = cap["band0"]
+    n, d = band0.shape
+    perp = np.zeros(d)
+    perp[(int(np.argmax(np.abs(band0[-1] - band0[0]))) + 1) % d] = 1.0
+    guess = band0 + bow * np.sin(np.linspace(0.0, np.pi, n))[:, None] * perp
+    lo, hi = np.array([b[0] for b in box]), np.array([b[1] for b in box])
+    guess = np.clip(guess, lo, hi)
+    g_c, g_f = np.ascontiguousarray(guess), np.asfortranarray(guess)
+    if not np.array_equal(g_c, g_f):
+        return out
+    o_c = np.array(neb.minimise_interpolation(g_c.copy()), dtype=float)
+    o_f = np.array(neb.minimise_interpolation(g_f), dtype=float)
+    for lab, o in (("row-major", o_c), ("column-major", o_f)):
+        if o.shape != guess.shape or not (np.array_equal(o[0], guess[0]) and np.array_equal(o[-1], guess[-1])):
+            out.append(("ends-moved:minimise_interpolation",
+                        f"{name}: an end image of a {lab} initial guess moved during optimisation "
+                        f"({guess[0].tolist()} -> {o[0].tolist() if o.shape == guess.shape else o.shape}, "
+                        f"{guess[-1].tolist()} -> {o[-1].tolist() if o.shape == guess.shape else ''})"))
+        elif np.any(o < lo) or np.any(o > hi):
+            out.append(("optimised-in-box:minimise_interpolation", f"{name}: optimisation of a {lab} guess left the box"))
+    if not out and not np.array_equal(o_c, o_f):
+        out.append(("layout-dependent:minimise_interpolation",
+                    f"{name}: the same initial guess gives different optimised bands depending on the memory layout of the "
+                    f"array it is handed over in (largest difference {float(np.max(np.abs(o_c - o_f))):.3g})"))
+    return out
+
+
 def _report(ctx, fails, replay):
     for key, what in fails:
         ctx.fail(key, what, replay)
@@ -1061,6 +1096,11 @@ def predicates(ctx: Ctx) -> None:
     for case in mol_cases:
         ctx.stats.case({"stream": "predicate-molecular-interp", "molecule": case[0], "moves": len(case[1])}, True)
         _run_pred(ctx, pred_molecular_interp, case, "dihedral_interpolation", {"pred": "molinterp", "case": list(case)})
+    for name, x1, x2 in (("camel", [-1.7036, 0.7961], [1.7036, -0.7961]), ("quad2", [-1.5, 0.5], [1.5, -2.0]),
+                         ("well2", [-1.0, 0.0], [1.0, 1.0])):
+        case = (name, x1, x2, rng.choice([0.3, 0.6]))
+        ctx.stats.case({"stream": "predicate-band-layout", "surface": name}, True)
+        _run_pred(ctx, pred_band_layout, case, "minimise_interpolation", {"pred": "layout", "case": list(case)})
     # corpus first: the §6 witness and boundary inputs
     corpus_g = [
         (4, [[0.0], [1.0], [1.5], [3.0]], [0.0] * 4, [[0.0]] * 4, [1.0] * 3),
@@ -1151,6 +1191,8 @@ def replay(ctx: Ctx, data: dict) -> bool:
         name, moves, density, mx, attempts = case
         fails = guarded(pred_molecular_interp, (name, [tuple(m) for m in moves], density, mx, list(attempts)),
                         "dihedral_interpolation")
+    elif kind == "layout":
+        fails = guarded(pred_band_layout, tuple(case), "minimise_interpolation")
     elif kind == "runs":
         case["calls"] = [tuple(c) for c in case["calls"]]
         fails = guarded(pred_runs, (case,), "run")
